@@ -19,7 +19,8 @@ EXIT_OK, EXIT_VIOLATION, EXIT_UNDECIDED, EXIT_ERROR = 0, 1, 2, 3
 def find_contract_module(pid):
     hits = sorted(glob.glob(os.path.join(VERIF, "contracts", f"{pid}_*.py")))
     if not hits:
-        raise SystemExit(f"no contract module for {pid}")
+        print(f"CHECKER-ERROR no contract module for {pid}")
+        raise SystemExit(3)
     return hits[0]
 
 
